@@ -310,7 +310,8 @@ OBLIGATIONS.append(M("C09", "c09_pubkey_use_total", {"q": "pubkey_use"}, ["Publi
 
 # ---------------------------------------------------------------- C15 (signature-opcode glue, one step)
 EXPLANATION["C15"] = ("Partial: the GLUE of the signature opcodes, one interpreter step. ECDSA verification, DER and curve-point validity are uninterpreted predicates; the sighash preimage function "
-                      "(Transaction::sighash_preimage_impl, decided against the published formats under C03 / C10) is an uninterpreted function of the flag whose ARGUMENTS are checked. E2 executes "
+                      "(Transaction::sighash_preimage_impl) is an uninterpreted function of the flag in the step queries, whose ARGUMENTS are checked there; the function itself is decided against the published formats "
+                      "by two further obligations (the C03 / C10 queries at 1 input x 1 output, all twelve standard flags). E2 executes "
                       "match_opcode -> checksig / multisig -> verify_tx_signature / calculate_sighash_preimage -> SighashSignature::from_bytes_impl, Transaction::_verify, ECDSA::verify_hashbuf_impl and "
                       "PublicKey::from_bytes_impl from MIR on a symbolic stack and spending context and decides: key = top item, signature = item below; the flag is the signature's last byte; the preimage is "
                       "requested for the input being verified, with the locking-script elements after the last executed code separator and the declared value of the spent output; OP_CHECKSIG(VERIFY) accepts "
@@ -325,12 +326,22 @@ OBLIGATIONS.append(M("C15", "c15_multisig_step_n2", {"q": "checksig", "part": "m
                      "1 <= m <= n <= 2, signatures 9 bytes (valid DER + flag 0x41 / 0x01 in three assignments), keys 33 bytes on the curve, all verification outcomes symbolic", cost=1))
 OBLIGATIONS.append(M("C15", "c15_multisig_step_n3", {"q": "checksig", "part": "multi", "max_n": 3, "min_n": 3}, ["Interpreter::match_opcode (OP_CHECKMULTISIG, OP_CHECKMULTISIGVERIFY)", "multisig", "verify_tx_signature", "calculate_sighash_preimage"],
                      "1 <= m <= n = 3, as above", cost=2))
+# the preimage function the step queries treat as uninterpreted, decided against the published formats for the twelve standard flag bytes (the C03 / C10 queries at 1x1, registered here because C15's statement includes "over the specified signature-hash preimage")
+OBLIGATIONS.append(M("C15", "c15_preimage_forkid_k1x1", {"q": "bip143", "k_in": 1, "k_out": 1, "name": "c15_bip143_k1x1"}, BIP143_FUNCS,
+                     "1 input x 1 output, input index 0..1, six FORKID flags (0x41 0x42 0x43 0xc1 0xc2 0xc3), all scalars, value and script lengths symbolic", cost=2))
+OBLIGATIONS.append(M("C15", "c15_preimage_legacy_k1x1", {"q": "legacy", "k_in": 1, "k_out": 1, "name": "c15_legacy_k1x1"}, LEGACY_FUNCS,
+                     "1 input x 1 output, input index 0..1, six legacy flags (0x01 0x02 0x03 0x81 0x82 0x83), all scalars and script lengths symbolic", cost=2))
 for _op in ("OP_CHECKSIG", "OP_CHECKSIGVERIFY"):
     OBLIGATIONS.append(M("C15", f"c15_{_op[3:].lower()}_step_allflags", {"q": "checksig", "part": "single", "ops": [_op], "flags": None}, ["Interpreter::match_opcode (" + _op + ")", "checksig", "verify_tx_signature", "calculate_sighash_preimage", "SighashSignature::from_bytes_impl"],
                          "as the quick obligation with all 256 values of the flag byte (all fourteen SigHash values)", cost=20, tiers=("thorough",), timeout=5400))
 
 OBLIGATIONS.append(M("C16", "c16_interp_tx_total", {"q": "interp_tx_total"}, ["Interpreter::from_transaction", "Interpreter::match_opcode (OP_CHECKSIG, OP_CHECKMULTISIG)", "checksig", "multisig", "calculate_sighash_preimage", "verify_tx_signature"],
                      "from_transaction: transactions with 0..2 inputs x every usize index; signature-opcode step: code-separator offset up to 3 beyond unlocking + locking script length (states reached through spliced conditional branches), OP_CHECKMULTISIG on stacks of 1..3 one-byte items with every declared count; sighash preimage, DER, point and ECDSA outcomes are accept-or-reject oracles", cost=1))
+
+OBLIGATIONS.append(M("C14", "c14_if_branch", {"q": "if_branch"}, ["Interpreter::match_script_bit (ScriptBit::If)", "ScriptStack::pop_bool", "Vec::splice"],
+                     "OP_IF and OP_NOTIF, with and without an else branch, stack depth 0..2, condition item of 0, 1, 2 or 5 bytes with symbolic content (every truthiness class incl. negative zero): the spliced-in branch, the consumed item, the untouched remainder", cost=1))
+OBLIGATIONS.append(M("C16", "c16_step_vs_run", {"q": "step_vs_run"}, ["Interpreter::run_impl", "Interpreter::next_impl", "Interpreter::match_script_bit", "Interpreter::match_opcode"],
+                     "ten short scripts (arithmetic, stack, alt stack, VERIFY, IF/ELSE, NOTIF, nested IF, too many DROPs, empty) on two symbolic one-byte operands: run_impl and repeated next_impl executed on the same path end in the same outcome and stacks", cost=1))
 
 
 def for_property(pid):
